@@ -36,9 +36,17 @@ def run(ctx):
     sink = ("field", c.LW + "slate::Slate", "tx")
     c.require_pass(ctx, R1, ft, SLATE + "check_fees", sink, "self.tx = final_tx requires check_fees Ok")
     c.require_pass(ctx, R1, ft, "grin_core::core::transaction::TxKernel::verify", sink, "self.tx = final_tx requires kernel verify Ok")
-    c.require_pass(ctx, R1, ft, "grin_core::core::transaction::Transaction::validate", sink, "self.tx = final_tx requires tx.validate Ok")
+    VALIDATE = "grin_core::core::transaction::Transaction::validate"
+    ftf0 = ctx.fn(ft)
+    if ftf0 is not None and not cfg.find_calls(ftf0, VALIDATE):
+        # the full consensus validation is the only place where the range proofs of the counterparty's reply are
+        # verified (validate_read / verify_kernel_sums do not look at them): say so instead of "anchor missing"
+        run.instance(R1, {"fn": "finalize_transaction", "obligation": "the final transaction passes Transaction::validate (kernel sums, weight and every range proof)"}, held=False)
+        run.finding(Finding(R1, ft, "the final transaction is stored and returned without the full consensus validation (Transaction::validate): the range proofs of the counterparty's reply are never verified", site=ftf0.loc()))
+    else:
+        c.require_pass(ctx, R1, ft, VALIDATE, sink, "self.tx = final_tx requires tx.validate Ok")
+        c.require_pass(ctx, R1, ft, VALIDATE, ("okret",), "Ok return requires tx.validate Ok")
     c.require_pass(ctx, R1, ft, SLATE + "check_fees", ("okret",), "Ok return requires check_fees Ok")
-    c.require_pass(ctx, R1, ft, "grin_core::core::transaction::Transaction::validate", ("okret",), "Ok return requires tx.validate Ok")
     # what is verified and validated is the transaction that is then stored (the one whose kernel carries the final
     # excess and signature), and the signature set into that kernel is the one handed in
     ftf = ctx.fn(ft)
